@@ -120,7 +120,8 @@ def build_cases(ctx):
             cases.append(("un", op + spell(a)))
     # array operands: an object operand takes part through its primitive value (an array's is its join), so the same operators
     # applied to them fall back on the primitive semantics above
-    arrs = ["[]", "[1]", "[2, 1]", "[2, 1, 3]", "[10]", "[9]", "['b']", "[[1], 2]", "[null]", "[undefined]", "['']", "[0]", "['1', 2]", "[-0]", "[1.5]", "[NaN]"]
+    arrs = ["({valueOf: function () { return 3; }})", "({toString: function () { return '4'; }})", "({valueOf: function () { return '5'; }, toString: function () { return 'x'; }})", "({valueOf: function () { return {}; }, toString: function () { return 6; }})",
+            "[]", "[1]", "[2, 1]", "[2, 1, 3]", "[10]", "[9]", "['b']", "[[1], 2]", "[null]", "[undefined]", "['']", "[0]", "['1', 2]", "[-0]", "[1.5]", "[NaN]"]
     prims = ["1", "2", "'1'", "'2,1'", "''", "'b'", "0", "null", "undefined", "true", "NaN", "'10'", "9"]
     for op in ["<", "<=", ">", ">=", "==", "!=", "===", "!==", "+", "-", "*", "/", "%", "&", "|", "<<"]:
         for a in arrs:
